@@ -122,6 +122,62 @@ func checkC15(c *Ctx) {
 		notActed := guardedBy(gs, false, func(s *Sym) bool {
 			return s.Kind == "field" && s.Name == "Acted" && isCur(s.Args[0])
 		})
+		// the lists the predicate tests membership in are complete: a betting round or a wager action
+		// missing from them is a turn that gets no deadline
+		constSet := func(vals []ssa.Value) map[string]bool {
+			out := map[string]bool{}
+			for _, v := range vals {
+				if sv, isS := p.Sym(v).ConstString(); isS {
+					out[sv] = true
+				} else {
+					return nil
+				}
+			}
+			return out
+		}
+		var fns []*ssa.Function
+		fns = append(fns, ss.Fn)
+		for _, ci := range Calls(ss.Fn) {
+			if g := ci.Common().StaticCallee(); g != nil && p.IsRepoFunc(g) {
+				fns = append(fns, g)
+			}
+		}
+		nRoundList, nActionList := 0, 0
+		for _, f := range fns {
+			for _, ci := range Calls(f) {
+				cs := p.CallSym(ci)
+				if cs.Name != "funk.Contains" || len(cs.Args) != 2 {
+					continue
+				}
+				x := cs.Args[1].Strip()
+				var want []string
+				var what, key string
+				switch {
+				case x.IsField("Status", "Round") && f == ss.Fn:
+					want, what, key = []string{"preflop", "flop", "turn", "river"}, "betting round", "betting-rounds-complete"
+					nRoundList++
+				case x.Contains(func(y *Sym) bool { return y.Kind == "field" && y.Name == "AllowedActions" }) || (x.Kind == "index" && f != ss.Fn && len(f.Params) >= 1):
+					want, what, key = []string{"call", "raise", "allin", "check", "fold", "bet"}, "wager action", "wager-actions-complete"
+					nActionList++
+				default:
+					continue
+				}
+				set := constSet(p.sliceValues(ci.Common().Args[0]))
+				if set == nil || len(set) == 0 {
+					c.Undecided("R3", "turn-predicate:"+key, p.InstrPos(ci), "the list tested for the "+what+" is not a literal (directly or through a package variable set once)")
+					continue
+				}
+				var missing []string
+				for _, w := range want {
+					if !set[w] {
+						missing = append(missing, w)
+					}
+				}
+				c.Check(len(missing) == 0, "R3", "turn-predicate:"+key, p.InstrPos(ci), fmt.Sprintf("every %s is in the list (%d entries)", what, len(set)), fmt.Sprintf("the %s list of the turn predicate lacks %v: a player asked in that case gets no deadline", what, missing))
+			}
+		}
+		c.Min("R3", "betting-round lists of the turn predicate", nRoundList, 1)
+		_ = nActionList // a predicate without the wager-action filter publishes more deadlines, not fewer: nothing to demand
 		for _, a := range []struct {
 			name string
 			ok   bool
